@@ -149,8 +149,9 @@ def choose(ctx, rng, direction, env, budget_factor=1):
                 break
             add(small[i])
     else:
-        for c in U:
-            add(c)
+        for rep in range(3):         # three draws of rows / dr / image height / call path
+            for c in U:
+                add(c)
         for k, law in laws.items():
             if k.startswith(direction + '|'):
                 add(law['tight'])
@@ -192,7 +193,7 @@ def run_sweep(ctx, rng, direction, pid, enlarged=False):
         ratio = r['err'] / E
         stats['worst_ratio'] = max(stats['worst_ratio'], ratio)
         if r['err'] > 1e-9:
-            stats['nontrivial'].add(sweep.envkey(c) + '|n=%d' % c['n'])
+            stats['nontrivial'].add(sweep.envkey(c) + '|n=%d|' % c['n'] + json.dumps(c['fam'], sort_keys=True))
         if len(stats['samples']) < 5:
             stats['samples'].append(dict(config={k: c[k] for k in ('dir', 'method', 'via', 'opts', 'fam', 'n', 'rows', 'dr')},
                                          error=r['err'], envelope=E, pixel=r['pix']))
@@ -311,7 +312,7 @@ def run(ctx, pid, direction):
         evaluations=st['envelope'] + st['refinement'] + 2 * st['dr'],
         distinct_nontrivial=len(st['nontrivial']),
         traces_validated_against_impl=st['envelope'] + st['refinement'] + 2 * st['dr'],
-        rule='a sweep configuration is distinct by (direction, method, option class, family kind, rows/image path, size) '
+        rule='a sweep configuration is distinct by (direction, method, option class, family and its parameters, rows/image path, size) '
              'and non-trivial when its error exceeds 1e-9 of the peak; refinement and dr evaluations are counted in '
              'evaluations only',
         samples=st['samples'],
